@@ -130,6 +130,11 @@ func (se *specEnv) eval(e *SExpr) SVal {
 	case SBinary:
 		return se.binary(e)
 	case SField:
+		if id := e.Args[0]; id.Kind == SIdent {
+			if c := se.importedConst(id.Name, e.Name); c != nil {
+				return se.constVal(c)
+			}
+		}
 		x := se.eval(e.Args[0])
 		return se.field(x, e.Name, e)
 	case SIndex:
@@ -291,6 +296,30 @@ func (se *specEnv) debugRef(name string) (SVal, bool) {
 		return SVal{f.load(se.cur, l), f.subst(derefT(found.X.Type()))}, true
 	}
 	return SVal{val, f.subst(found.X.Type())}, true
+}
+
+// importedConst resolves pkg.Name to a constant of an imported package (unless pkg is shadowed).
+func (se *specEnv) importedConst(pkgName, name string) *types.Const {
+	if _, shadowed := se.vars[pkgName]; shadowed {
+		return nil
+	}
+	for _, p := range se.f.fn.Params {
+		if p.Name() == pkgName {
+			return nil
+		}
+	}
+	pkg := se.pkg()
+	if pkg == nil {
+		return nil
+	}
+	for _, imp := range pkg.Imports() {
+		if imp.Name() == pkgName {
+			if c, ok := imp.Scope().Lookup(name).(*types.Const); ok {
+				return c
+			}
+		}
+	}
+	return nil
 }
 
 func (se *specEnv) pkg() *types.Package {
@@ -968,7 +997,9 @@ func (se *specEnv) existsFn(e *SExpr) SVal {
 			}
 		}
 		if len(disj) == 0 {
-			sfail("no witness available for ghost function %s (add: witness %s(x) := ...)", e.Name, e.Name)
+			// nothing in scope can witness the ghost function: the goal cannot be established here
+			f.ctx.trusted["unprovable goal: no witness in scope for ghost function "+e.Name+" (the obligation is reported as failed)"] = true
+			return SVal{False, tb}
 		}
 		return SVal{Or(disj...), tb}
 	}
